@@ -12,4 +12,7 @@ def f2 : Bool := true
 /-- companion of F6: a selected directory is forwarded once in metadata-only mode -/
 def f6b : Bool := true
 
+/-- F9: patternWithoutTrailingGlob strips one trailing glob only -/
+def f9 : Bool := true
+
 end Fsm.Fix
